@@ -130,6 +130,10 @@ func decErrName(err error) string {
 		return "length"
 	case strings.Contains(msg, "checksum mismatch"):
 		return "checksum"
+	case strings.Contains(msg, "malformed signature"), strings.Contains(msg, "invalid signature"),
+		strings.Contains(msg, "signature R is"), strings.Contains(msg, "signature S is"):
+		// btcec/v2/ecdsa.ParseDERSignature: errors.New with constant texts
+		return "sig"
 	}
 	return "other"
 }
